@@ -447,6 +447,126 @@ def gen_cases(ck, idents):
     return cases
 
 
+
+# ---------------------------------------------------------------- programs
+C13_TABLE = ["real_real", "real_integer", "real_abs", "real_add", "real_aq", "real_cos", "real_div", "real_gt",
+             "real_idiv", "real_ifb", "real_ife", "real_ifl", "real_ifz", "real_length", "real_ln", "real_lt",
+             "real_max", "real_mod", "real_mul", "real_sin", "real_sqrt", "real_sub", "real_sigmoid", "string_ife"]
+KREAL, KINT, KSTR = 0, 1, 2          # the categories used by the generated programs
+
+
+def gen_example(rnd, B):
+    """input variables: 0-3 real, 4 int, 5-6 string; each possibly undefined"""
+    def rv():
+        r = rnd.random()
+        if r < 0.12:
+            return "v"
+        if r < 0.45:
+            return tok(rnd.choice(B))
+        if r < 0.8:
+            return tok(f2b(rnd.uniform(-10.0, 10.0)))
+        while True:
+            b = rnd.getrandbits(64)
+            if finite_bits(b):
+                return tok(b)
+    ex = [rv() for _ in range(4)]
+    ex.append(rnd.choice(["i:0", "i:1", "v", "i:7"]))
+    ex.append(rnd.choice(["s:", "s:61", "s:6162", "v"]))
+    ex.append(rnd.choice(["s:61", "s:616263", "s:" + "7a" * 20]))
+    return ex
+
+
+VAR_CAT = [KREAL, KREAL, KREAL, KREAL, KINT, KSTR, KSTR]
+
+
+def gen_tree(rnd, cat, depth, B):
+    """a well-typed program of the given root category:
+    ('P', ident, cvect, cat, argcats, param, kids) | ('V', index, cat)"""
+    def var():
+        return ("V", rnd.choice([i for i, c in enumerate(VAR_CAT) if c == cat]), cat)
+    if depth <= 0 or rnd.random() < 0.12:
+        if cat == KREAL and rnd.random() < 0.5:
+            r = rnd.random()
+            b = rnd.choice(B) if r < 0.5 else f2b(rnd.uniform(-100.0, 100.0))
+            return ("P", rnd.choice(["real_real", "real_integer"]), [KREAL], KREAL, [], b, [])
+        return var()
+    def P(ident, cvect, argcats):
+        return ("P", ident, cvect, cat, argcats, None, [gen_tree(rnd, c, depth - 1, B) for c in argcats])
+    r = rnd.random()
+    if r < 0.30:                                       # conditionals returning this category
+        ident = rnd.choice(["real_ife", "real_ifl", "real_ifb", "string_ife"] + (["real_ifz"] if cat == KREAL else []))
+        if ident == "real_ifz":
+            return P(ident, [KREAL], [KREAL, KREAL, KREAL])
+        if ident == "string_ife":
+            k = rnd.choice([KREAL, KINT, KSTR])
+            return P(ident, [k, cat], [k, k, cat, cat])
+        n = 3 if ident == "real_ifb" else 2
+        return P(ident, [KREAL, cat], [KREAL] * n + [cat, cat])
+    if cat == KREAL:
+        if r < 0.36:
+            return P("real_length", [KSTR, KREAL], [KSTR])
+        if r < 0.62:
+            return P(rnd.choice(UN), [KREAL], [KREAL])
+        return P(rnd.choice(["real_add", "real_sub", "real_mul", "real_div", "real_idiv", "real_mod", "real_aq",
+                             "real_max"]), [KREAL], [KREAL, KREAL])
+    if cat == KINT:
+        return P(rnd.choice(["real_gt", "real_lt"]), [KREAL, KINT], [KREAL, KREAL])
+    return var()
+
+
+def tree_tokens(t, idx):
+    """(harness tokens, model tokens) in prefix order"""
+    if t[0] == "V":
+        w = "V:%d:%d" % (t[1], t[2])
+        return [w], [w]
+    _, ident, cvect, cat, argcats, par, kids = t
+    ac = ",".join(map(str, argcats)) or "-"
+    pp = "-" if par is None else "%016x" % par
+    h = ["P:%s:%s:%d:%s:%s" % (ident, ",".join(map(str, cvect)), cat, ac, pp)]
+    m = ["P:%d:%d:%d:%s:%s" % (idx[ident], C13_TABLE.index(ident), cat, ac, pp)]
+    for k in kids:
+        hk, mk = tree_tokens(k, idx)
+        h += hk
+        m += mk
+    return h, m
+
+
+def tree_size(t):
+    return 1 if t[0] == "V" else 1 + sum(tree_size(k) for k in t[6])
+
+
+def subtrees(t):
+    yield t
+    if t[0] == "P":
+        for k in t[6]:
+            yield from subtrees(k)
+
+
+def tree_text(t):
+    if t[0] == "V":
+        return "X%d" % t[1]
+    if not t[6]:
+        return "%s(%016x)" % (t[1], t[5])
+    return "%s(%s)" % (t[1], ", ".join(tree_text(k) for k in t[6]))
+
+
+def tree_lines(example, t, idx):
+    h, m = tree_tokens(t, idx)
+    pre = "TREE %d %s " % (len(example), " ".join(example))
+    return pre + " ".join(h), pre + " ".join(m)
+
+
+def tree_oracle(out):
+    """a program over finite-or-undefined inputs and finite constants, rooted in the real category, yields a
+    finite number or the undefined value"""
+    w = (out or "CRASH").split()
+    if w[0] == "v":
+        return None
+    if w[0].startswith("d:") and finite_bits(int(w[0][2:], 16)):
+        return None
+    return "the program yields %s" % (out,)
+
+
 def case_lines(cases, idx):
     hl, ml = [], []
     for n, par, a in cases:
@@ -522,6 +642,61 @@ def run(ck):
                                  dict(rep, oracle=bad))
         if ho != mo:
             ck.add_diff({"prim": n, "param": rep["param"], "args": a}, mo, ho)
+    # ---- programs: random well-typed expression trees run by the real interpreter (vita::run) ----
+    def jt(t):
+        return list(t[:6]) + [[jt(k) for k in t[6]]] if t[0] == "P" else list(t)
+
+    def tj(j):
+        return tuple(j[:6]) + ([tj(k) for k in j[6]],) if j[0] == "P" else tuple(j)
+
+    if ck.replay_path:
+        progs = [(c["example"], tj(c["tree"])) for c in cs if "tree" in c]
+    else:
+        B = boundary_bits(False)
+        ntrees = 60000 if ck.thorough else 4000
+        progs = []
+        for _ in range(ntrees):
+            progs.append((gen_example(ck.rng, B), gen_tree(ck.rng, KREAL, ck.rng.randint(1, 5), B)))
+    if progs:
+        tl = [tree_lines(ex, t, idx) for ex, t in progs]
+        thout, tcr = pc.run_harness_resilient(harness, [h for h, _ in tl])
+        rc, tmout, merr = vv.run_lines(model, "\n".join(m for _, m in tl) + "\n")
+        if rc != 0 or len(tmout) != len(progs):
+            raise vv.BuildError("model driver failed on programs: rc=%s %s" % (rc, merr[:500]))
+        sizes = {}
+        for k, (ex, t) in enumerate(progs):
+            ck.count()
+            n = tree_size(t)
+            sizes[min(n, 40) // 5 * 5] = sizes.get(min(n, 40) // 5 * 5, 0) + 1
+            ho, mo = thout[k], tmout[k]
+            if n >= 3:
+                ck.nontriv(("tree", " ".join(ex), tree_text(t)))
+            if k < 2:
+                ck.sample({"program": tree_text(t), "example": ex, "impl": ho, "model": mo})
+            bad = tree_oracle(ho)
+            if bad or ho is None or ho.startswith("CRASH"):
+                # shrink: the smallest real-rooted subtree that still violates
+                subs = sorted((u for u in subtrees(t) if (u[2] if u[0] == "V" else u[3]) == KREAL), key=tree_size)
+                sl = [tree_lines(ex, u, idx)[0] for u in subs]
+                so, _ = pc.run_harness_resilient(harness, sl)
+                best, bo = t, ho
+                for u, o in zip(subs, so):
+                    if tree_oracle(o):
+                        best, bo = u, o
+                        break
+                root = best[1] if best[0] == "P" else "variable"
+                ck.add_violation("program:%s:not-closed" % root,
+                                 "program %s on inputs [%s]: %s" % (tree_text(best), " ".join(ex), tree_oracle(bo)),
+                                 {"tree": jt(best), "example": ex, "program": tree_text(best), "impl": bo,
+                                  "model": mo if best is t else None, "found_in": tree_text(t),
+                                  "sanitizer": tcr.get(k, "")[-1500:]})
+                continue
+            if mo != ho + " wt":
+                ck.add_diff({"tree": jt(t), "example": ex, "program": tree_text(t)}, mo, ho,
+                            what="program: model and implementation differ (or the model's typing check sig_okb "
+                                 "rejects a program the real constructors accept)")
+        ck.coverage["programs"] = len(progs)
+        ck.coverage["program_sizes"] = {"%d-%d" % (b, b + 4): c for b, c in sorted(sizes.items())}
     ck.coverage["per_primitive"] = hist
     ck.coverage["boundary_values"] = len(boundary_bits(ck.thorough))
     ck.coverage["guard_hits_on_defined_arguments"] = guard_hits
@@ -530,6 +705,9 @@ def run(ck):
              "+-2^+-k, +-DBL_MAX, operands whose sum/product/square just overflows, libm thresholds) and the undefined "
              "value per argument of every unary/binary primitive; conditionals on operand pairs whose difference "
              "straddles 2^-51 by 1 ulp with every defined/undefined branch shape; strings; seeded random bit patterns; "
+             "random well-typed expression trees (depth <= 5, categories real/int/string, boundary constants and inputs) "
+             "run by vita::run on the real interpreter and by the extracted run_tree; "
              "non-trivial = in-contract case with an operand within 8 ulps of a boundary value or of a power of two, an "
-             "undefined operand, or an undefined result; distinct = distinct (primitive, operands)"
+             "undefined operand, or an undefined result, or a program with at least 3 nodes; distinct = distinct "
+             "(primitive, operands) / (program, inputs)"
              % len(boundary_bits(ck.thorough)))
